@@ -5,6 +5,7 @@ CONSTANTS
   MaxReplies = 1
   LeakOnSendError = FALSE
   MatchCreation = TRUE
+  SeqCallers = FALSE
   RemoveOnTimeout = FALSE
 CHECK_DEADLOCK FALSE
 INVARIANT NothingLeft
